@@ -1,10 +1,7 @@
 """C18 — output is a function of the dump, not of the host operating system."""
-import contextlib
-import enum
 import errno
 import signal
 import socket
-import types
 
 from .. import core
 from .. import decoders as D
@@ -13,7 +10,9 @@ MODULE = 'KdVerif.Props.C18'
 NAMESPACE = 'KdVerif.C18'
 TRUSTED = ['Spec/DarwinHost.lean: Darwin errno / signal / socket tables written by hand from the XNU headers',
            'Gen/Host.lean: reflection of the running interpreter\'s tables', 'IR translator + IR.eval']
-ASSUMPTIONS = ['other platforms are modelled by swapping the errno / Signals / socket objects the handler module imports']
+ASSUMPTIONS = ['another platform is modelled by a FRESH interpreter whose errno.errorcode / signal.Signals / socket.AddressFamily / '
+               'SocketKind / SOL_SOCKET are replaced by Darwin\'s before the package is imported (tools/kdv/hostproc.py), so tables '
+               'captured at import time are seen too']
 LEVEL_TEXT = ('Host tables are a parameter of the Lean rendering function; theorems: exactly six decoders read host enum tables, '
               'errno is read only in BSD result parts, every other decoder renders identically on any two hosts '
               '(host_free_independent, non_bsd_decoders_host_independent), and host-reading decoders depend on the host only '
@@ -23,31 +22,7 @@ LEVEL_NOTE = ('Trusted: Lean kernel, Darwin reference tables, reflection, AST tr
               'is violated by design of the current code (K2, recorded as known finding); what is proved is the exact extent.')
 TECHNIQUE = 'Lean 4 proof: host as parameter, reflective footprint classification + congruence lemma; table-swap differential run'
 
-DARWIN_ERRNO = {1: 'EPERM', 2: 'ENOENT', 3: 'ESRCH', 4: 'EINTR', 5: 'EIO', 6: 'ENXIO', 7: 'E2BIG', 8: 'ENOEXEC', 9: 'EBADF',
-                10: 'ECHILD', 11: 'EDEADLK', 12: 'ENOMEM', 13: 'EACCES', 14: 'EFAULT', 15: 'ENOTBLK', 16: 'EBUSY', 17: 'EEXIST',
-                18: 'EXDEV', 19: 'ENODEV', 20: 'ENOTDIR', 21: 'EISDIR', 22: 'EINVAL', 23: 'ENFILE', 24: 'EMFILE', 25: 'ENOTTY',
-                26: 'ETXTBSY', 27: 'EFBIG', 28: 'ENOSPC', 29: 'ESPIPE', 30: 'EROFS', 31: 'EMLINK', 32: 'EPIPE', 33: 'EDOM',
-                34: 'ERANGE', 35: 'EAGAIN', 36: 'EINPROGRESS', 37: 'EALREADY', 38: 'ENOTSOCK', 39: 'EDESTADDRREQ',
-                40: 'EMSGSIZE', 41: 'EPROTOTYPE', 42: 'ENOPROTOOPT', 43: 'EPROTONOSUPPORT', 44: 'ESOCKTNOSUPPORT',
-                45: 'ENOTSUP', 46: 'EPFNOSUPPORT', 47: 'EAFNOSUPPORT', 48: 'EADDRINUSE', 49: 'EADDRNOTAVAIL', 50: 'ENETDOWN',
-                51: 'ENETUNREACH', 52: 'ENETRESET', 53: 'ECONNABORTED', 54: 'ECONNRESET', 55: 'ENOBUFS', 56: 'EISCONN',
-                57: 'ENOTCONN', 58: 'ESHUTDOWN', 59: 'ETOOMANYREFS', 60: 'ETIMEDOUT', 61: 'ECONNREFUSED', 62: 'ELOOP',
-                63: 'ENAMETOOLONG', 64: 'EHOSTDOWN', 65: 'EHOSTUNREACH', 66: 'ENOTEMPTY', 67: 'EPROCLIM', 68: 'EUSERS',
-                69: 'EDQUOT', 70: 'ESTALE', 71: 'EREMOTE', 72: 'EBADRPC', 73: 'ERPCMISMATCH', 74: 'EPROGUNAVAIL',
-                75: 'EPROGMISMATCH', 76: 'EPROCUNAVAIL', 77: 'ENOLCK', 78: 'ENOSYS', 79: 'EFTYPE', 80: 'EAUTH', 81: 'ENEEDAUTH',
-                82: 'EPWROFF', 83: 'EDEVERR', 84: 'EOVERFLOW', 85: 'EBADEXEC', 86: 'EBADARCH', 87: 'ESHLIBVERS',
-                88: 'EBADMACHO', 89: 'ECANCELED', 90: 'EIDRM', 91: 'ENOMSG', 92: 'EILSEQ', 93: 'ENOATTR', 94: 'EBADMSG',
-                95: 'EMULTIHOP', 96: 'ENODATA', 97: 'ENOLINK', 98: 'ENOSR', 99: 'ENOSTR', 100: 'EPROTO', 101: 'ETIME',
-                102: 'EOPNOTSUPP', 103: 'ENOPOLICY', 104: 'ENOTRECOVERABLE', 105: 'EOWNERDEAD', 106: 'EQFULL'}
-DARWIN_SIGNALS = {1: 'SIGHUP', 2: 'SIGINT', 3: 'SIGQUIT', 4: 'SIGILL', 5: 'SIGTRAP', 6: 'SIGABRT', 7: 'SIGEMT', 8: 'SIGFPE',
-                  9: 'SIGKILL', 10: 'SIGBUS', 11: 'SIGSEGV', 12: 'SIGSYS', 13: 'SIGPIPE', 14: 'SIGALRM', 15: 'SIGTERM',
-                  16: 'SIGURG', 17: 'SIGSTOP', 18: 'SIGTSTP', 19: 'SIGCONT', 20: 'SIGCHLD', 21: 'SIGTTIN', 22: 'SIGTTOU',
-                  23: 'SIGIO', 24: 'SIGXCPU', 25: 'SIGXFSZ', 26: 'SIGVTALRM', 27: 'SIGPROF', 28: 'SIGWINCH', 29: 'SIGINFO',
-                  30: 'SIGUSR1', 31: 'SIGUSR2'}
-DARWIN_AF = {0: 'AF_UNSPEC', 1: 'AF_UNIX', 2: 'AF_INET', 11: 'AF_SNA', 12: 'AF_DECnet', 16: 'AF_APPLETALK', 17: 'AF_ROUTE',
-             18: 'AF_LINK', 23: 'AF_IPX', 30: 'AF_INET6', 32: 'AF_SYSTEM'}
-DARWIN_SK = {1: 'SOCK_STREAM', 2: 'SOCK_DGRAM', 3: 'SOCK_RAW', 4: 'SOCK_RDM', 5: 'SOCK_SEQPACKET'}
-DARWIN_SOL = 0xffff
+from ..darwin_tables import DARWIN_ERRNO, DARWIN_SIGNALS, DARWIN_AF, DARWIN_SK, DARWIN_SOL  # noqa: E402
 ENUM_READERS = {'BSC_socket': ['addressFamily', 'socketKind'], 'BSC_socketpair': ['addressFamily', 'socketKind'],
                 'BSC_socket_delegate': ['addressFamily', 'socketKind'], 'BSC_sigaction': ['signals'],
                 'BSC_setsockopt': ['solSocket'], 'BSC_getsockopt': ['solSocket']}
@@ -61,22 +36,6 @@ def host_tables():
             'solSocket': socket.SOL_SOCKET}
 
 
-@contextlib.contextmanager
-def darwin_host():
-    """Substitute Darwin's tables for the objects the handler module took from the host interpreter."""
-    from pykdebugparser.trace_handlers import bsd
-    saved = {k: getattr(bsd, k) for k in ('errno', 'Signals', 'socket') if hasattr(bsd, k)}
-    bsd.errno = types.SimpleNamespace(errorcode=dict(DARWIN_ERRNO))
-    bsd.Signals = enum.IntEnum('Signals', {v: k for k, v in DARWIN_SIGNALS.items()})
-    bsd.socket = types.SimpleNamespace(
-        AddressFamily=enum.IntEnum('AddressFamily', {v: k for k, v in DARWIN_AF.items()}),
-        SocketKind=enum.IntEnum('SocketKind', {v: k for k, v in DARWIN_SK.items()}), SOL_SOCKET=DARWIN_SOL)
-    try:
-        yield
-    finally:
-        for k, v in saved.items():
-            setattr(bsd, k, v)
-
 
 def run(c):
     try:
@@ -85,9 +44,37 @@ def run(c):
         return 'raise ' + core.err_name(e)
 
 
+def host_texts(cases):
+    return [run(c) for c in cases]
+
+
+def darwin_texts(cases):
+    """The same windows rendered by the package imported in a fresh interpreter that has Darwin's tables."""
+    import json
+    import os
+    import subprocess
+    import sys
+    if not cases:
+        return []
+    tools = os.path.dirname(os.path.dirname(os.path.dirname(os.path.abspath(__file__))))
+    env = dict(os.environ)
+    env['REPO_DIR'] = core.REPO
+    env['PYTHONPATH'] = tools
+    p = subprocess.run([sys.executable, '-m', 'kdv.hostproc'], input='\n'.join(json.dumps(c) for c in cases) + '\n',
+                       capture_output=True, text=True, cwd=tools, env=env)
+    out = [json.loads(l) for l in p.stdout.splitlines()]
+    if p.returncode != 0 or len(out) != len(cases):
+        raise core.Infra('fresh-interpreter runner failed: rc=%s, %d of %d answers\n%s'
+                         % (p.returncode, len(out), len(cases), p.stderr[-1500:]))
+    return out
+
+
 def demo_case(name, start=None, end=None):
     return {'name': name, 'start': start or [3, 4, 5, 6], 'end': end or [0, 0, 0, 0], 'tid': 9, 'lookups': [], 'gs': {},
             'tp': {}, 'tn': {}}
+
+
+NEGATIVES = [(1 << 64) - 1, (1 << 64) - 2, (1 << 64) - 9, (1 << 32) - 1, (1 << 32) - 2, 1 << 31, 1 << 63, (1 << 31) - 1]
 
 
 def correspondence(rep, rng, tier):
@@ -96,8 +83,8 @@ def correspondence(rep, rng, tier):
     ref = {'errno': DARWIN_ERRNO, 'signals': DARWIN_SIGNALS, 'addressFamily': DARWIN_AF, 'socketKind': DARWIN_SK}
     sec = rep.section('host-vs-darwin')
     sec['rule'] = ('failing-input search on the real code: every code at which the running interpreter\'s table differs from '
-                   'Darwin\'s, rendered by a decoder that consults that table, under the host tables and under substituted '
-                   'Darwin tables; then every decoder on random windows under both (any difference outside the known readers '
+                   'Darwin\'s, rendered by a decoder that consults that table, on this host and in a fresh interpreter with '
+                   'Darwin\'s tables; then every decoder on random windows under both (any difference outside the known readers '
                    'is a new host dependence)')
     diffs = {}
     for tname, table in ref.items():
@@ -113,49 +100,51 @@ def correspondence(rep, rng, tier):
         'socketKind': lambda code: demo_case('BSC_socket', start=[2, code, 0, 0]),
         'solSocket': lambda code: demo_case('BSC_setsockopt', start=[3, code, 4, 8]),
     }
-    for tname, codes in diffs.items():
-        for code in codes[:200]:
-            c = demos[tname](code)
-            a = run(c)
-            with darwin_host():
-                b = run(c)
-            sec['cases'] += 1
-            if a != b:
-                sec['distinct_nontrivial'] += 1
-                rep.add_failure('host:' + tname, 'code %d: on this host %r, with Darwin tables %r' % (code, a, b),
-                                {'section': 'host-vs-darwin', 'case': c, 'table': tname, 'code': code})
+    items = [(tname, code, demos[tname](code)) for tname, codes in diffs.items() for code in codes[:200]]
+    A = host_texts([c for _, _, c in items])
+    B = darwin_texts([c for _, _, c in items])
+    for (tname, code, c), a, b in zip(items, A, B):
+        sec['cases'] += 1
+        if a != b:
+            sec['distinct_nontrivial'] += 1
+            rep.add_failure('host:' + tname, 'code %d: on this host %r, with Darwin tables %r' % (code, a, b),
+                            {'section': 'host-vs-darwin', 'case': c, 'table': tname, 'code': code})
     if rep.broken or tier == 'thorough':       # the theorems rule a new dependence out; search only when they no longer check
         targeted_search(rep, diffs, tier, ht)
         if rep.broken and not any(f['signature'].startswith('host:new-dependence') for f in rep.failures):
             pairwise_search(rep, diffs, ht)
     # every decoder on random windows under both hosts: differences only where a known reader meets a differing code
-    known_errno = set()
     from pykdebugparser.trace_handlers.bsd import handlers as bsd_handlers
     per = 3 if tier == 'quick' else 40
     sec2 = rep.section('table-swap')
-    sec2['rule'] = 'every decoder x %d random windows under host tables and under Darwin tables' % per
+    sec2['rule'] = ('every decoder x %d random windows (one in four with a negative / boundary error word) on this host and in a '
+                    'fresh interpreter with Darwin tables' % per)
+    cases = []
     for n in D.all_handler_names():
-        for _ in range(per):
+        for k in range(per):
             c = D.make_case(rng, n)
-            a = run(c)
-            with darwin_host():
-                b = run(c)
-            sec2['cases'] += 1
-            if a == b:
-                continue
-            sec2['distinct_nontrivial'] += 1
-            reason = None
-            if n in bsd_handlers and c['end'][0] in diffs['errno'] or \
-                    (n in bsd_handlers and ht['errno'].get(c['end'][0]) != DARWIN_ERRNO.get(c['end'][0])):
-                reason = 'errno'
-            for t in ENUM_READERS.get(n, []):
-                reason = reason or t
-            if reason is None:
-                rep.add_failure('host:new-dependence:' + n, 'decoder %s renders %r on this host and %r with Darwin tables'
-                                % (n, a, b), {'section': 'table-swap', 'case': c})
-            else:
-                rep.add_failure('host:' + reason, 'decoder %s: %r on this host, %r with Darwin tables' % (n, a, b),
-                                {'section': 'table-swap', 'case': c, 'table': reason})
+            if k % 4 == 3:
+                c['end'] = [rng.choice(NEGATIVES)] + list(c['end'][1:])
+            cases.append(c)
+    A = host_texts(cases)
+    B = darwin_texts(cases)
+    for c, a, b in zip(cases, A, B):
+        n = c['name']
+        sec2['cases'] += 1
+        if a == b:
+            continue
+        sec2['distinct_nontrivial'] += 1
+        reason = None
+        if n in bsd_handlers and ht['errno'].get(c['end'][0]) != DARWIN_ERRNO.get(c['end'][0]):
+            reason = 'errno'
+        for t in ENUM_READERS.get(n, []):
+            reason = reason or t
+        if reason is None:
+            rep.add_failure('host:new-dependence:' + n, 'decoder %s renders %r on this host and %r with Darwin tables'
+                            % (n, a, b), {'section': 'table-swap', 'case': c})
+        else:
+            rep.add_failure('host:' + reason, 'decoder %s: %r on this host, %r with Darwin tables' % (n, a, b),
+                            {'section': 'table-swap', 'case': c, 'table': reason})
 
 
 def candidates():
@@ -177,18 +166,23 @@ def candidates():
     return sorted(out)
 
 
+
 def targeted_search(rep, diffs, tier, ht):
-    """For every candidate decoder put every small code (0..130), 0xffff and every code at which a host table differs
-    from Darwin's into every START / END position and compare the rendering under the host tables and under Darwin's.
-    A difference at a code on which the consulted tables AGREE, or in a decoder outside the known readers, is a NEW
-    host dependence."""
+    """For every candidate decoder put every small code (0..130), 0xffff, negative / boundary words and every code at
+    which a host table differs from Darwin's into every START / END position and compare the rendering on this host with
+    the rendering in a fresh interpreter with Darwin's tables.  A difference at a code on which the consulted tables
+    AGREE, or in a decoder outside the known readers, is a NEW host dependence."""
     from pykdebugparser.trace_handlers.bsd import handlers as bsd_handlers
     sec = rep.section('new-dependence-search')
-    sec['rule'] = 'codes 0..130, 0xffff, all differing codes x every START/END position x candidate decoders'
     ref = {'errno': DARWIN_ERRNO, 'signals': DARWIN_SIGNALS, 'addressFamily': DARWIN_AF, 'socketKind': DARWIN_SK}
-    codes = sorted(set(range(0, 131)) | {0xffff} | {c for t in ref for c in diffs[t]})
-    for n in candidates():
-        known_tables = ENUM_READERS.get(n, [])
+    cands = candidates()
+    codes = sorted(set(range(0, 131)) | {0xffff} | set(NEGATIVES) | {c for t in ref for c in diffs[t]})
+    if len(cands) > 60:                                # many decoders left the translatable subset: thinner code grid
+        codes = sorted(set(range(0, 12)) | {35, 0xffff} | set(NEGATIVES) | {c for t in ref for c in diffs[t][:12]})
+    sec['rule'] = ('%d codes (0..130, 0xffff, negative and boundary words, all differing codes; thinned when more than 60 '
+                   'candidates) x every START/END position x %d candidate decoders' % (len(codes), len(cands)))
+    items = []
+    for n in cands:
         for code in codes:
             for pos in range(8):
                 c = demo_case(n, start=[2, 1, 0, 6], end=[0, 1, 2, 3])
@@ -196,87 +190,87 @@ def targeted_search(rep, diffs, tier, ht):
                     c['start'][pos] = code
                 else:
                     c['end'][pos - 4] = code
-                a = run(c)
-                with darwin_host():
-                    b = run(c)
-                sec['cases'] += 1
-                if a == b:
-                    continue
-                sec['distinct_nontrivial'] += 1
-                # explained by a known reader meeting a code its table names differently?
-                explained = None
-                if n in bsd_handlers and pos == 4 and ht['errno'].get(code) != DARWIN_ERRNO.get(code):
-                    explained = 'errno'
-                for t in known_tables:
-                    words = c['start']
-                    if t == 'solSocket' and (ht['solSocket'] in words or DARWIN_SOL in words):
-                        explained = explained or t
-                    elif t in ref and any(ht[t].get(w) != ref[t].get(w) for w in words):
-                        explained = explained or t
-                if explained:
-                    rep.add_failure('host:' + explained, 'decoder %s: %r on this host, %r with Darwin tables' % (n, a, b),
-                                    {'section': 'new-dependence-search', 'case': c, 'table': explained})
-                else:
-                    rep.add_failure('host:new-dependence:' + n,
-                                    'decoder %s renders %r on this host and %r with Darwin tables although the tables agree '
-                                    'on every word of the window' % (n, a, b),
-                                    {'section': 'new-dependence-search', 'case': c})
-                    break
-            else:
-                continue
-            break
+                items.append((n, code, pos, c))
+    A = host_texts([it[3] for it in items])
+    B = darwin_texts([it[3] for it in items])
+    new_for = set()
+    for (n, code, pos, c), a, b in zip(items, A, B):
+        sec['cases'] += 1
+        if a == b or n in new_for:
+            continue
+        sec['distinct_nontrivial'] += 1
+        known_tables = ENUM_READERS.get(n, [])
+        explained = None                               # a known reader meeting a code its table names differently?
+        if n in bsd_handlers and pos == 4 and ht['errno'].get(code) != DARWIN_ERRNO.get(code):
+            explained = 'errno'
+        for t in known_tables:
+            words = c['start']
+            if t == 'solSocket' and (ht['solSocket'] in words or DARWIN_SOL in words):
+                explained = explained or t
+            elif t in ref and any(ht[t].get(w) != ref[t].get(w) for w in words):
+                explained = explained or t
+        if explained:
+            rep.add_failure('host:' + explained, 'decoder %s: %r on this host, %r with Darwin tables' % (n, a, b),
+                            {'section': 'new-dependence-search', 'case': c, 'table': explained})
+        else:
+            new_for.add(n)
+            rep.add_failure('host:new-dependence:' + n,
+                            'decoder %s renders %r on this host and %r with Darwin tables although the tables agree '
+                            'on every word of the window' % (n, a, b),
+                            {'section': 'new-dependence-search', 'case': c})
 
 
 def pairwise_search(rep, diffs, ht):
     """Two cooperating words: for the UNTRANSLATED decoders (the translator met a construct outside its subset, so the
     theorems say nothing about them) sweep a single flag bit in every START word against every differing errno /
     signal code, plain and negated, in the END error and return words."""
+    from pykdebugparser.trace_handlers.bsd import handlers as bsd_handlers
     st = D.stats()
-    hand = set(candidates()) & set(st['unsupported'])
+    hand = sorted(set(candidates()) & set(st['unsupported']))
     sec = rep.section('new-dependence-pairs')
-    sec['rule'] = 'untranslated decoders x (START position x single bit 0..31) x (END word 0/1 x +-code for differing codes)'
     ref = {'errno': DARWIN_ERRNO, 'signals': DARWIN_SIGNALS}
     codes = sorted({c for t in ref for c in diffs[t]})[:80]
+    bits = list(range(32))
+    if len(hand) > 12:                                 # keep the sweep within minutes when many decoders are untranslated
+        codes, bits = codes[:10], [0, 3, 24, 31]
+    sec['rule'] = ('%d untranslated decoders x (START position x single bit from %d) x (END word 0/1 x +-code for %d differing '
+                   'codes)' % (len(hand), len(bits), len(codes)))
     ends = [c for c in codes] + [(1 << 64) - c for c in codes] + [(1 << 32) - c for c in codes]
-    for n in sorted(hand):
-        found = False
+    for n in hand:
+        items = []
         for pos in range(4):
-            for bit in range(32):
+            for bit in bits:
                 for epos in (1, 0):
                     for ev in ends:
                         c = demo_case(n, start=[2, 1, 0, 6], end=[0, 1, 2, 3])
                         c['start'][pos] |= 1 << bit
                         c['end'][epos] = ev
-                        a = run(c)
-                        with darwin_host():
-                            b = run(c)
-                        sec['cases'] += 1
-                        if a != b:
-                            from pykdebugparser.trace_handlers.bsd import handlers as bsd_handlers
-                            if n in bsd_handlers and epos == 0 and ht['errno'].get(ev) != DARWIN_ERRNO.get(ev):
-                                continue          # the error word of a result part: K2a
-                            sec['distinct_nontrivial'] += 1
-                            rep.add_failure('host:new-dependence:' + n,
-                                            'decoder %s renders %r on this host and %r with Darwin tables' % (n, a, b),
-                                            {'section': 'new-dependence-pairs', 'case': c})
-                            found = True
-                            break
-                    if found:
-                        break
-                if found:
-                    break
-            if found:
-                break
+                        items.append((epos, ev, c))
+        A = host_texts([it[2] for it in items])
+        B = darwin_texts([it[2] for it in items])
+        for (epos, ev, c), a, b in zip(items, A, B):
+            sec['cases'] += 1
+            if a == b:
+                continue
+            if n in bsd_handlers and epos == 0 and ht['errno'].get(ev) != DARWIN_ERRNO.get(ev):
+                continue                               # the error word of a result part: K2a
+            sec['distinct_nontrivial'] += 1
+            rep.add_failure('host:new-dependence:' + n,
+                            'decoder %s renders %r on this host and %r with Darwin tables' % (n, a, b),
+                            {'section': 'new-dependence-pairs', 'case': c})
+            break
 
 
 def replay(path):
     import json
     with open(path) as fd:
         r = json.load(fd)
+    if 'replay' not in r or 'case' not in r['replay']:
+        print(json.dumps(r, indent=1)[:4000])
+        return 1
     c = r['replay']['case']
     a = run(c)
-    with darwin_host():
-        b = run(c)
+    b = darwin_texts([c])[0]
     print('host  :', a)
     print('darwin:', b)
     if a != b:
